@@ -405,11 +405,11 @@ class Fingerprinter(object):
             true_level = level
 
         shells = self.level_shells[true_level]
+        try:
+            atom_mask = set(atom_mask)
+        except TypeError:  # a single atom index
+            atom_mask = {atom_mask}
         if len(atom_mask) > 0:
-            try:
-                atom_mask = set(atom_mask)
-            except TypeError:
-                atom_mask = {atom_mask}
             shells = {
                 x for x in shells if x.substruct.atoms.isdisjoint(atom_mask)
             }
